@@ -61,6 +61,11 @@ def run(ctx, prefix=PREFIX):
             for t in doc["sections"]:
                 all_traces.append(t)
                 all_meta.append({"source": "repository test-suite (harness.recorder)"})
+    # scale: long histories over very few names -> ten and more duplicates (two-digit suffixes), long sections
+    for kind in ("header", "curve"):
+        t, m = section.random_histories(ctx, rng, 120 if ctx.tier != "thorough" else 1500, 34, ["A", "A", "A", "", "b"], kind=kind)
+        all_traces += t
+        all_meta += m
     fails, _ = ctx.validate("Trace_Section", section.doc_for(all_traces))
     section.judge(ctx, all_traces, all_meta, fails, prefix)
     ctx.require_ops("Trace_Section", ["init", "append", "insert", "delidx", "delkey", "setitem", "setvalue", "get", "probe", "roundtrip"])
